@@ -50,10 +50,26 @@ type mrepo struct {
 	fuzzy map[string]bool
 	// subjects whose referrers listing is unspecified (a collection may have dropped the response)
 	refFuzzy map[string]bool
+	// every manifest ever acknowledged (needed to follow children of deleted indexes)
+	everMans map[string]*mman
 }
 
 func newMRepo() *mrepo {
-	return &mrepo{blobs: map[string][]byte{}, mans: map[string]*mman{}, tags: map[string]string{}, fuzzy: map[string]bool{}, refFuzzy: map[string]bool{}}
+	return &mrepo{blobs: map[string][]byte{}, mans: map[string]*mman{}, tags: map[string]string{}, fuzzy: map[string]bool{}, refFuzzy: map[string]bool{}, everMans: map[string]*mman{}}
+}
+
+// markFuzzy marks d, and everything below it if it is (or was) an index, as "by-digest manifest visibility
+// unspecified" (open finding 12: children leave index.json and are only re-discovered through a present parent).
+func (mr *mrepo) markFuzzy(d string) {
+	if mr.fuzzy[d] {
+		return
+	}
+	mr.fuzzy[d] = true
+	if x := mr.everMans[d]; x != nil && x.isIndex {
+		for _, c := range x.refs {
+			mr.markFuzzy(c)
+		}
+	}
 }
 
 type env struct {
@@ -497,6 +513,7 @@ func (e *env) acceptManifest(p manifestPlan) {
 	mr := e.repo(p.repo)
 	mr.blobs[p.digest] = p.raw
 	mr.mans[p.digest] = p.mm
+	mr.everMans[p.digest] = p.mm
 	delete(mr.fuzzy, p.digest)
 	if p.tag != "" {
 		mr.tags[p.tag] = p.digest
@@ -506,8 +523,9 @@ func (e *env) acceptManifest(p manifestPlan) {
 	// a child that was not a present manifest has unspecified by-digest visibility
 	if p.mm.isIndex {
 		for _, c := range p.mm.refs {
-			if mr.mans[c] == nil {
-				mr.fuzzy[c] = true
+			if mr.mans[c] == nil || mr.fuzzy[c] {
+				delete(mr.fuzzy, c) // re-mark, so that the marks below c are refreshed too
+				mr.markFuzzy(c)
 			}
 		}
 	}
@@ -525,14 +543,14 @@ func (e *env) modelDeleteDigest(rn, d string) {
 	}
 	if x != nil && x.isIndex {
 		for _, c := range x.refs {
-			mr.fuzzy[c] = true
+			mr.markFuzzy(c)
 		}
 	}
 	for _, o := range mr.mans {
 		if o.isIndex {
 			for _, c := range o.refs {
 				if c == d {
-					mr.fuzzy[d] = true
+					mr.markFuzzy(d)
 				}
 			}
 		}
